@@ -15,8 +15,8 @@ props = {
  "C01": dict(level="other", claim="container part only: the Writer accepts bytes, partitions them into blocks and hands every accepted byte to exactly one successful block task before Close reports success (plain-byte accounting obs.plain + available), header fields are written once, end marker last; codecs are not verified",
    explain="Contracts on Writer.Write/processBlock/Close/writeHeader, encodingTask.encode and ComputeJobsPerTask are discharged by SMT for all inputs. Decided: on success every accepted byte was handed to a block task that published its block (no byte dropped or left behind for any job count, size hint or split of the data), buffers are never indexed out of range, Close is complete or reports an error. Not decided: that each block decodes to its input (transform and entropy codecs are assumed to be inverse pairs, C12/C13), the header round trip at bit level, configurations rejected late by codec constructors.",
    trusted=[T1,T2,T3,T4,T5,T6,T7,TG]),
- "C02": dict(level="other", claim="after any block error nothing unverified is delivered: failed blocks are not counted or copied, the cursor is reset, the stream is invalidated; the hash functions and the comparison itself are not yet under contract",
-   explain="Contracts on Reader.Read/processBlock and decodingTask.decode. Decided for all inputs: a block whose task reports an error (checksum mismatch included) contributes no byte to the delivered data (atreturn obligation `delivered-bytes-were-copied`), every error invalidates the stream (blockID == cancel), later Read calls deliver nothing (`ended-stays-ended`). Not decided here: that decode compares the recomputed hash with the stored one on exactly the delivered bytes (decode's hash calls are unmodelled) and hash collisions.",
+ "C02": dict(level="other", claim="after any block error nothing unverified is delivered: failed blocks are not counted or copied, the cursor is reset, the stream is invalidated; the hash loops are proved to consume every byte of their argument (n == end == len(data) at return), the comparison itself is not under contract",
+   explain="Contracts on Reader.Read/processBlock and decodingTask.decode. Decided for all inputs: a block whose task reports an error (checksum mismatch included) contributes no byte to the delivered data (atreturn obligation `delivered-bytes-were-copied`), every error invalidates the stream (blockID == cancel), later Read calls deliver nothing (`ended-stays-ended`). XXHash32/64.Hash: the stripe loop and both tail loops advance by exactly the bytes they mix and end at len(data) (no byte left out of the digest). Not decided here: that decode compares the recomputed hash with the stored one on exactly the delivered bytes (decode's hash calls are unmodelled in decode's own contract) and hash collisions.",
    trusted=[T1,T2,T3,T4,T5,T6,T7]),
  "C03": dict(level="other", claim="panic containment and no-panic of the caller-side reader code; termination of codec code not decided",
    explain="decodingTask.decode and Reader.readHeader are verified with a panic edge after every call: every panic is caught by their deferred recover and turned into an error (`nopanic:escapes`); Reader.Read, Reader.processBlock (after the join) and Reader.Close are proved free of index, slice, nil, division and type-assertion panics under the Reader invariant. Not decided: termination and time bounds of codec loops, goroutines spawned inside codecs (inverse BWT workers), allocation sizes.",
@@ -36,14 +36,17 @@ props = {
    explain="", trusted=[T1,T2,T3,T4,T5,T6,T7,TG]),
  "C09": dict(level="proof", claim="a read never goes beyond the source (rbits <= 8*len(src)), fewer bits than requested ==> panic ==> error; end of stream is reported only after a zero length field was read successfully; Close writes the end marker last",
    explain="", trusted=[T1,T2,T3,T4,T5,T6,T7]),
- "C10": dict(level="other", claim="only the header write/read functions are under contract so far (field order and widths through the token tape); constants, hashes and codec bodies are not pinned yet",
-   explain="Writer.writeHeader and Reader.readHeader are verified for no-panic/only-once/validation clauses; the token tape records (value,width) of every header field. Not decided: equality of the layout with the pinned reference, hash functions, codec tables, golden corpus.",
+ "C10": dict(level="other", claim="three layers: (1) header write/read functions under contract (field order and widths through the token tape), (2) the round functions of XXHash32/XXHash64 proved equal, in 32/64-bit vector arithmetic, to formulas pinned from the reference snapshot, and the hash loops proved to consume every input byte, (3) every package-level constant and literal table referenced from decode-side code compared with the value pinned from the reference snapshot (207 entries, decided by go/types constant evaluation, no solver); codec bodies and the golden corpus are not decided",
+   explain="Decided: a change of any magic number, header width, name/type table, hash prime/rotation or codec table of the pinned set, or of the bytes covered by the hashes, fails a named obligation. Not decided: that codec bodies still decode old streams when their code (not their constants) changes; that needs the golden corpus of the property, which is a test, not a contract.",
    trusted=[T1,T2,T4,T5,T6,T7]),
  "C11": dict(level="other", claim="skip logic: a task reports skipped only for ids outside [from,to), a skipped task decodes nothing, decoded blocks are inside the range; an all-skipped batch is repeated, not mistaken for end of stream",
    explain="decode clauses skipped-only-outside-range / decoded-only-inside-range / skipped-not-decoded and Reader.processBlock's outer loop invariant (all skipped ==> nothing decoded, token advanced, repeat) are discharged. Not decided: that block k covers bytes (k-1)*B..k*B-1 of the original (needs the content-level view of C01).",
    trusted=[T1,T2,T3,T4,T5,T6,T7]),
  "C14": dict(level="proof", claim="bitstream writer and reader: counters equal the sum of operation sizes at every step, byte view of buffer+sink is only appended to, push stores the word big-endian, closed streams refuse, Close pads to a byte and keeps Written(); bit-level content of WriteBits/ReadBits/WriteArray/ReadArray inside a word is not yet proved",
    explain="", trusted=[T1,T2,T4,T5,T6,T7,TG]),
+ "C15": dict(level="other", claim="name<->type tables only: for transform tokens and entropy codecs the real lookup functions are proved (SMT string theory, cvc5) to accept exactly the pinned table, to be case-insensitive (result depends on upper(name) only) and to round-trip type -> name -> type and name -> type -> canonical upper-case name; chain splitting/packing (transform.GetType/GetName loops) and the agreement of string-selected codec variants with the header types are not decided yet",
+   explain="entropy.GetName/GetType and transform.getByteFunctionNameToken/getByteFunctionTypeToken are verified in string mode (Go strings are SMT strings, strings.ToUpper is str.to_upper). Not decided: chains (split on '+', NONE removal, 8 slots of 6 bits), variant selection by raw context string (ROLZX, TPAQX, fast-entropy checks), byte identity of streams produced from different spellings.",
+   trusted=[T1,T2,T5,T7,"T9 SMT-LIB string theory (cvc5 str.to_upper) stands for Go's strings.ToUpper on the ASCII names of the table; non-ASCII case folding is not modelled"]),
  "C16": dict(level="other", claim="the four clauses of the property are postconditions of the real NormalizeFrequencies (sum == scale, present symbols kept >= 1, absent symbols 0, alphabet strictly increasing and in range), discharged by SMT for all histograms; the sum clause carries a second disjunct (sum > scale and every entry <= 1) whose impossibility (256 entries <= 1 sum to at most 256 <= scale) is argued in DESIGN.md, not machine-checked",
    explain="Contract on entropy.NormalizeFrequencies with six loop invariants (123 obligations). sum(a,lo,hi) is an uninterpreted function with the store lemma L1 and the empty-range axiom; the unfolding instances and the non-negativity of suffix sums are stated as assumptions (listed). Frequencies are assumed to stay below 2^60 inside the redistribution loops (machine arithmetic). Call sites (ANS, Range) are not under contract yet.",
    trusted=[T1,T2,T5,T6,T7,"T8 lemmas about sum$: L1 store/point-update, empty range; assumed instances: left unfolding at the loop index, suffix sums of a non-negative array are non-negative"]),
@@ -53,7 +56,6 @@ props = {
 not_applicable = {
  "C12": "not claimed yet: entropy codec bodies are out of reach of the verifier (see DESIGN 3/C12); the bounded contract monitor is not built yet",
  "C13": "not claimed yet: transform bodies are out of reach of the verifier (see DESIGN 3/C13); the bounded contract monitor is not built yet",
- "C15": "not claimed yet: name tables with the SMT string theory are not under contract yet",
  "C18": "data-race freedom of all library code under all schedules needs a permission logic and a heap-footprint analysis the WP generator does not have; a race detector over explored schedules is a different family (DESIGN section 4)",
  "C19": "not claimed yet: file-safety ordering obligations of the CLI not built yet",
 }
